@@ -77,4 +77,6 @@ require (
 
 replace github.com/ansible/receptor => /repo
 
-replace github.com/quic-go/quic-go v0.40.1 => github.com/AaronH88/quic-go v0.0.0-20240925173611-8b838692e0f5
+// receptor pins the AaronH88 fork of quic-go; the simulator builds against a private copy of exactly that version with one
+// comparison changed for the fake clock (created by bin/check / setup_cmd, see sim/overlay/README)
+replace github.com/quic-go/quic-go v0.40.1 => ./.third_party/quic-go
